@@ -141,8 +141,17 @@ def snapshot_bytes_verified(ctx, rule_src, rule_store, fi: FuncInfo, sources=('_
 
     cfg = cfg_of(fi.node)
     sink_stmts, store_stmts = [], []
+    # the tracked byte strings: locals that receive the result of a source (cache read / download) somewhere in the function
+    tracked = set()
+    for a in ast.walk(fi.node):
+        if isinstance(a, ast.Assign) and any(True for _ in self_calls(a.value, set(sources))):
+            tracked |= {t.id for t in a.targets if isinstance(t, ast.Name)}
+        if isinstance(a, ast.Call) and isinstance(a.func, ast.Attribute) and a.func.attr == 'read_bytes':
+            par = getattr(a, '_parent', None)
+            if isinstance(par, ast.Assign):
+                tracked |= {t.id for t in par.targets if isinstance(t, ast.Name)}
     for c in self_calls(fi.node, set(sinks)):
-        if c.args and isinstance(c.args[0], ast.Name):
+        if c.args and isinstance(c.args[0], ast.Name) and (c.args[0].id in tracked or not tracked):
             sink_stmts.append((enclosing_stmt(c), c.args[0].id, c))
     for c in self_calls(fi.node, set(stores)):
         if len(c.args) >= 2 and isinstance(c.args[1], ast.Name):
